@@ -471,30 +471,30 @@ def _attr_shape(prog: Program, f, expr) -> list | None:
     np.linalg.pinv / np.diag / sum / binary arithmetic."""
     cls = f.cls
 
-    def shape(e, depth=0):
+    def shape(e, depth=0, ctx=None):
         if depth > 20 or e is None:
             return None
         if isinstance(e, ast.Call):
             fn = ast.unparse(e.func)
             if isinstance(e.func, ast.Attribute) and e.func.attr in (
                     "toarray", "todense", "copy", "astype", "tocsc", "tolil"):
-                return shape(e.func.value, depth + 1)
+                return shape(e.func.value, depth + 1, ctx)
             if fn.endswith(("lil_matrix", "csc_matrix", "csr_matrix", "coo_matrix")) \
                     and e.args:
                 a = e.args[0]
                 if isinstance(a, ast.Tuple):
                     return [ast.unparse(x) for x in a.elts]
-                return shape(a, depth + 1)
+                return shape(a, depth + 1, ctx)
             if fn in ("np.linalg.pinv", "np.linalg.inv"):
-                sh = shape(e.args[0], depth + 1)
+                sh = shape(e.args[0], depth + 1, ctx)
                 return list(reversed(sh)) if sh else None
             if fn == "np.diag" and e.args:
-                sh = shape(e.args[0], depth + 1)
+                sh = shape(e.args[0], depth + 1, ctx)
                 if sh and len(sh) == 1:
                     return [sh[0], sh[0]]
                 return None
             if fn == "sum" and e.args:
-                sh = shape(e.args[0], depth + 1)
+                sh = shape(e.args[0], depth + 1, ctx)
                 return sh[1:] if sh and len(sh) > 1 else None
             if fn in ("np.zeros", "np.ones", "np.empty") and e.args:
                 a = e.args[0]
@@ -502,20 +502,20 @@ def _attr_shape(prog: Program, f, expr) -> list | None:
                     return [ast.unparse(x) for x in a.elts]
                 return None
             if fn == "to_cy" and e.args:
-                return shape(e.args[0], depth + 1)
+                return shape(e.args[0], depth + 1, ctx)
             if isinstance(e.func, ast.Attribute) and isinstance(e.func.value, ast.Name) \
                     and e.func.value.id == "self" and cls is not None:
                 m = prog.lookup(cls, e.func.attr)
                 if m is None:
                     return None
-                shs = [shape(r.value, depth + 1) for r in ast.walk(m.node)
+                shs = [shape(r.value, depth + 1, m.node) for r in ast.walk(m.node)
                        if isinstance(r, ast.Return) and r.value is not None]
                 if shs and all(x == shs[0] and x is not None for x in shs):
                     return shs[0]
                 return None
             return None
         if isinstance(e, ast.BinOp):
-            l, r = shape(e.left, depth + 1), shape(e.right, depth + 1)
+            l, r = shape(e.left, depth + 1, ctx), shape(e.right, depth + 1, ctx)
             if l and r:
                 return l if len(l) >= len(r) else r
             return l or r
@@ -531,12 +531,20 @@ def _attr_shape(prog: Program, f, expr) -> list | None:
                                 for t in n.targets):
                             if isinstance(n.value, ast.Constant) and n.value.value is None:
                                 continue
-                            shs.append(shape(n.value, depth + 1))
+                            shs.append(shape(n.value, depth + 1, m.node))
+            if shs and all(x == shs[0] and x is not None for x in shs):
+                return shs[0]
+            return None
+        if isinstance(e, ast.Name) and ctx is not None:
+            ds = [n.value for n in ast.walk(ctx) if isinstance(n, ast.Assign)
+                  and len(n.targets) == 1 and isinstance(n.targets[0], ast.Name)
+                  and n.targets[0].id == e.id]
+            shs = [shape(d, depth + 1, ctx) for d in ds]
             if shs and all(x == shs[0] and x is not None for x in shs):
                 return shs[0]
             return None
         return None
-    return shape(expr)
+    return shape(expr, 0, f.node)
 
 
 # ---------------------------------------------------------------------------
